@@ -109,6 +109,8 @@ func (Prop) Run(c *engine.Ctx) {
 				t.Outcome(fmt.Sprintf("type=%T", blk))
 				ref := sm4ref.New(key)
 				want := make([]byte, 16)
+				bad := false
+				fail := func(key, format string, a ...any) { bad = true; t.Fail(key, format, a...) }
 				for bi := 0; bi < nvals; bi++ {
 					b, bclass := value(bi)
 					ref.Encrypt(want, b)
@@ -117,33 +119,33 @@ func (Prop) Run(c *engine.Ctx) {
 					engine.FillPattern(dst, 1)
 					blk.Encrypt(dst, src)
 					if !bytes.Equal(dst, want) {
-						t.Fail("single/encrypt/"+kclass+"-key", "key %x block %x: Encrypt = %x, reference %x", key, b, dst, want)
+						fail("single/encrypt/"+kclass+"-key", "key %x block %x: Encrypt = %x, reference %x", key, b, dst, want)
 					}
 					if !bytes.Equal(src, b) {
-						t.Fail("single/encrypt/source-modified", "key %x block %x: source became %x", key, b, src)
+						fail("single/encrypt/source-modified", "key %x block %x: source became %x", key, b, src)
 					}
 					// in-place decrypt of the reference ciphertext
 					copy(dst, want)
 					blk.Decrypt(dst, dst)
 					if !bytes.Equal(dst, b) {
-						t.Fail("single/decrypt-inplace/"+kclass+"-key", "key %x ct %x: Decrypt in place = %x, want %x", key, want, dst, b)
+						fail("single/decrypt-inplace/"+kclass+"-key", "key %x ct %x: Decrypt in place = %x, want %x", key, want, dst, b)
 					}
 					// in-place encrypt
 					copy(src, b)
 					blk.Encrypt(src, src)
 					if !bytes.Equal(src, want) {
-						t.Fail("single/encrypt-inplace/"+kclass+"-key", "key %x block %x: Encrypt in place = %x, reference %x", key, b, src, want)
+						fail("single/encrypt-inplace/"+kclass+"-key", "key %x block %x: Encrypt in place = %x, reference %x", key, b, src, want)
 					}
 					// disjoint decrypt of what the library produced
 					engine.FillPattern(dst, 0)
 					blk.Decrypt(dst, src)
 					if !bytes.Equal(dst, b) {
-						t.Fail("single/roundtrip/"+kclass+"-key", "key %x block %x: Decrypt(Encrypt(b)) = %x", key, b, dst)
+						fail("single/roundtrip/"+kclass+"-key", "key %x block %x: Decrypt(Encrypt(b)) = %x", key, b, dst)
 					}
 					t.Eval(4)
 					t.Nontrivial(fmt.Sprintf("single/k%d/%s", ki, bclass))
 					t.Outcome(fmt.Sprintf("ct0=%02x", want[0]))
-					if t.Failed() {
+					if bad {
 						break // the first (smallest-index) failing block of this key is the counterexample; one report per key class
 					}
 				}
